@@ -161,6 +161,31 @@ def run(ctx):
                    sample={"lines": lines, "mode": mode} if len(lines) == 3 and mode == "last-unterminated" else None)
         if stop:
             break
+    if not t.fail:
+        # sizes no small example reaches: runs of thousands of lines of one kind, hundreds of fields / stanzas, values and comments
+        # of hundreds of lines, documents beyond every buffer size - same statement
+        big = {
+            "6000 empty lines between two stanzas": ["A: b\n"] + ["\n"] * 6000 + ["C: d\n"],
+            "20000 whitespace-only lines": [" \n"] * 20000,
+            "400 stanzas": [l for i in range(400) for l in ("Package: p%d\n" % i, "Depends: a,\n", " b%d\n" % i, "\n")],
+            "a stanza of 600 fields": ["F%03d: v\n" % i for i in range(600)],
+            "a value of 700 lines with comments inside": ["Desc: first\n"] + [(" line %d\n" % i) if i % 9 else "# c\n" for i in range(700)] + ["Z: z\n"],
+            "a comment block of 500 lines": ["# c %d\n" % i for i in range(500)] + ["A: b\n"],
+            "one line of 200 kB": ["A: " + "x" * 200000 + "\n", "B: c\n"],
+            "3000 error lines": ["garbage %d\n" % i for i in range(3000)],
+        }
+        for what, lines in big.items():
+            for form in ("list", "binary file object"):
+                t.case(key=("large", what, form))
+                if check_lines(repro.parse_deb822_file, real.tokenize_deb822_file, lines, t, "terminated", form):
+                    break
+            if t.fail:
+                # (the generated input is described, not stored: it has up to 20000 lines)
+                t.fail["lines"] = "(generated) " + what
+                for k_ in ("dump", "tokens", "dump_fd", "convert_to_text"):
+                    if k_ in t.fail:
+                        t.fail[k_] = "%d characters" % len(t.fail[k_])
+                break
     t.done()
     ctx.level = "other"
     ctx.explanation = ("R-01a/b: proved for all lines by SMT on the real pattern objects. Everything else is BOUNDED in this "
